@@ -12,11 +12,17 @@
 //     Chain::difference           r canonical and r == self \ other
 //     OwnedChain::from_iter       r canonical and r == union of the input blocks (lo <= hi each, any order)
 // "x in chain" is decided with a symbolic probe x: u32 (CBMC decides the universally quantified statement);
-// "subset"/"equal" are decided by probing the finitely many breakpoints of the two interval unions, and
+// "subset" / "equal" are decided by probing the finitely many breakpoints of the two interval unions, and
 // that characterisation is itself checked against the probe semantics in chain_kb_spec_*.
-// BOUND: every operand chain has at most 2 blocks (harnesses *_n2; *_n3 with at most 3 blocks are in the
-// thorough tier where they finish); all block bounds, the variant (Id / Range) of every block and the probe
-// are fully symbolic u32 / bool.  Nothing here is counted as proved beyond the bound.
+// All block bounds, the variant (Id / Range) of every operand block and the probe are fully symbolic.
+// BOUND (number of blocks per operand; stated per harness, `sA_oB` = self <= A blocks, other <= B blocks):
+//     contains_item, is_encompassed, ==      <= 3 blocks each
+//     trim, difference                       see the harness lines (quick tier: small shapes; thorough: <= 2 each)
+//     from_iter                              <= 2 input blocks (sorted and unsorted path separately)
+// Nothing here is counted as proved beyond the bound.
+// ASSUMPTIONS (std only, all CHECKED rather than assumed, see "allocator model"): the harnesses that reach
+// Vec growth run with std::alloc::alloc / realloc and core::ptr::copy_nonoverlapping replaced by equivalent
+// bounded implementations (Kani stubs); any request outside their bound fails the harness.
 //@features ca,rtr,slurm
 
 //@append src/repository/resources/asres.rs
@@ -53,7 +59,7 @@ mod verif_chain_kb {
     }
     /// Some(w) with w in a \ b, or None.  x |-> (x in a && x not in b) is piecewise constant and can switch
     /// from false to true only at a lower bound of a or just behind an upper bound of b, so it is enough
-    /// to look at those points.  (Checked against the probe semantics in chain_kb_spec_*.)
+    /// to look at those points.  (Checked against the probe semantics in chain_kb_spec_*; operands only.)
     fn diff_witness(a: &Sp, b: &Sp) -> Option<u32> {
         let mut w = None;
         macro_rules! cand { ($ok:expr, $v:expr) => { if w.is_none() && $ok { let v: u32 = $v; if has(a, v) && !has(b, v) { w = Some(v); } } } }
@@ -71,11 +77,12 @@ mod verif_chain_kb {
     fn blk(lo: u32, hi: u32, id: bool) -> AsBlock {
         if id && lo == hi { AsBlock::Id(asn(lo)) } else { AsBlock::Range(AsRange::new(asn(lo), asn(hi))) }
     }
-    /// the first s.n blocks as a Vec.  (Built at full length and truncated: conditional `push`es make the
-    /// length symbolic at every push and drag Vec's reallocation path into the formula: 350 s instead of 6 s.)
+    /// the first s.n (<= 3) blocks as a Vec.  (Built at full length and truncated: conditional `push`es make the
+    /// length symbolic at every push and drag Vec's growth path into the formula: 350 s instead of 6 s.)
     fn mkvec(s: &Sp, var: u8) -> Vec<AsBlock> {
         assume(s.n <= 3);
-        let mut v = vec![blk(s.lo[0], s.hi[0], var & 1 != 0), blk(s.lo[1], s.hi[1], var & 2 != 0), blk(s.lo[2], s.hi[2], var & 4 != 0)];
+        let mut v = Vec::with_capacity(4);
+        v.push(blk(s.lo[0], s.hi[0], var & 1 != 0)); v.push(blk(s.lo[1], s.hi[1], var & 2 != 0)); v.push(blk(s.lo[2], s.hi[2], var & 4 != 0));
         v.truncate(s.n);
         v
     }
@@ -89,6 +96,93 @@ mod verif_chain_kb {
         rd!(0); rd!(1); rd!(2); rd!(3); rd!(4); rd!(5);
         s
     }
+    /// every block is in the canonical representation of `AsBlock::new`: Id exactly for single numbers
+    fn canonical_variants(c: &[AsBlock]) -> bool {
+        macro_rules! ok { ($i:expr) => { match c.get($i) { Some(b) => matches!(b, AsBlock::Id(_)) == (b.min() == b.max()), None => true } } }
+        ok!(0) && ok!(1) && ok!(2) && ok!(3) && ok!(4) && ok!(5)
+    }
+
+    // ---------------- allocator model (Kani only) -------------------------------------------------
+    // Why: `Vec::push` inside the loops of trim / difference / from_iter asks the allocator for a buffer whose
+    // size is a symbolic expression (the capacity is a merge over loop paths), at every push site of every
+    // unwound iteration.  CBMC then creates one heap object of symbolic size per site; every block written or
+    // read through the result pointer is encoded against all of them, and the propositional encoding exhausts
+    // 60 GB already for two-block chains (measured; four conditional pushes alone: 3.5 M variables).
+    // The model is a POOL ALLOCATOR: a few real heap objects per size class (1, 2, 3, 4 and 8 AsBlocks of
+    // 12 bytes, alignment 4) are obtained from Kani's built-in allocator when the harness starts and are handed
+    // out in order, each at most once.  This is a legal behaviour of the global allocator (distinct live blocks
+    // of exactly the requested size; realloc keeps the old contents; freed blocks are never reused), so nothing
+    // is assumed about rpki-rs code, and Kani's bounds / use-after-free checks stay exact because every object
+    // has exactly the requested size.  A request of any other size or alignment, or more requests than the
+    // pool holds, FAILS the harness (panic) - it is not assumed away.  `copy_model` replaces
+    // core::ptr::copy_nonoverlapping (reached through `self.0[..idx].into()` with a symbolic length, which CBMC
+    // encodes as a symbolic-size array copy) by the equivalent element-wise copy of at most 4 elements
+    // (asserted).  Native replay uses the real allocator and the real copy.
+    #[cfg(kani)]
+    mod pool {
+        use std::alloc::{alloc_zeroed, dealloc, Layout};
+        use core::ptr::{addr_of_mut, null_mut, NonNull};
+        const K: usize = 4;
+        static mut POOL: [[*mut u8; K]; 5] = [[null_mut(); K]; 5];
+        static mut USED: [usize; 5] = [0; 5];
+        const SIZE: [usize; 5] = [12, 24, 36, 48, 96];
+        /// called first in every harness that uses the model (alloc_zeroed is not stubbed: real objects)
+        pub fn init() {
+            macro_rules! fill { ($c:literal, $($k:literal)*) => { $( unsafe { (*addr_of_mut!(POOL))[$c][$k] = alloc_zeroed(Layout::from_size_align_unchecked(SIZE[$c], 4)); } )* } }
+            fill!(0, 0); fill!(1, 0); fill!(2, 0); fill!(3, 0 1 2 3); fill!(4, 0);
+        }
+        unsafe fn take(class: usize, avail: usize) -> *mut u8 {
+            unsafe {
+                let k = (*addr_of_mut!(USED))[class];
+                assert!(k < avail, "allocator model: pool exhausted");
+                (*addr_of_mut!(USED))[class] = k + 1;
+                (*addr_of_mut!(POOL))[class][k]
+            }
+        }
+        /// stands in for std::alloc::alloc
+        pub unsafe fn alloc(layout: Layout) -> *mut u8 {
+            assert!(layout.align() == 4, "allocator model: only Vec<AsBlock> buffers (alignment 4)");
+            unsafe { match layout.size() {
+                48 => take(3, 4), 12 => take(0, 1), 24 => take(1, 1), 36 => take(2, 1), 96 => take(4, 1),
+                _ => panic!("allocator model: unexpected buffer size"),
+            } }
+        }
+        /// stands in for alloc::alloc::realloc_nonnull (contract of GlobalAlloc::realloc: a block of new_size
+        /// bytes holding the first min(old, new) bytes of the old block, which is freed)
+        pub unsafe fn realloc(ptr: NonNull<u8>, layout: Layout, new_size: usize) -> *mut u8 {
+            assert!(layout.align() == 4 && layout.size() < new_size, "allocator model: Vec<AsBlock> buffers only grow");
+            unsafe {
+                let new = match new_size { 48 => take(3, 4), 96 => take(4, 1), _ => panic!("allocator model: unexpected new size") };
+                let (s, d) = (ptr.as_ptr() as *const u32, new as *mut u32);
+                macro_rules! w { ($($i:literal)*) => { $( d.add($i).write(s.add($i).read()); )* } }
+                match layout.size() {
+                    12 => { w!(0 1 2); }
+                    24 => { w!(0 1 2 3 4 5); }
+                    36 => { w!(0 1 2 3 4 5 6 7 8); }
+                    48 => { w!(0 1 2 3 4 5 6 7 8 9 10 11); }
+                    _ => panic!("allocator model: unexpected old size"),
+                }
+                dealloc(ptr.as_ptr(), layout);
+                new
+            }
+        }
+        /// no growth of a live buffer is expected (results of at most 4 blocks built by push alone)
+        pub unsafe fn no_realloc(ptr: NonNull<u8>, layout: Layout, new_size: usize) -> *mut u8 {
+            panic!("allocator model: no reallocation expected in this harness")
+        }
+        /// stands in for core::ptr::copy_nonoverlapping
+        pub unsafe fn copy_model<T>(src: *const T, dst: *mut T, count: usize) {
+            assert!(count <= 4, "copy model: at most 4 elements");
+            unsafe {
+                if count > 0 { dst.write(src.read()); }
+                if count > 1 { dst.add(1).write(src.add(1).read()); }
+                if count > 2 { dst.add(2).write(src.add(2).read()); }
+                if count > 3 { dst.add(3).write(src.add(3).read()); }
+            }
+        }
+    }
+    #[cfg(not(kani))]
+    mod pool { pub fn init() {} }
 
     // ---------------- the specification helpers against the probe semantics --------------------
     macro_rules! spec_harness { ($name:ident, $bound:expr) => {
@@ -104,50 +198,61 @@ mod verif_chain_kb {
             }
         }}
     }}
-    //@harness chain_kb_spec_n2 Kb fn=- bound="unions of at most 2 intervals" timeout=300
-    spec_harness!(chain_kb_spec_n2, 2);
     //@harness chain_kb_spec_n3 Kb fn=- bound="unions of at most 3 intervals" timeout=300
     spec_harness!(chain_kb_spec_n3, 3);
 
     // ---------------- operations on two canonical chains ----------------------------------------
-    macro_rules! pair_harness { ($name:ident, $unwind:literal, $bound:expr, |$s:ident, $o:ident, $os:ident, $oo:ident, $x:ident| $body:block) => {
-        verif_harness!{ #[kani::unwind($unwind)] $name; |n: u8, a0: u32, a1: u32, b0: u32, b1: u32, c0: u32, c1: u32, va: u8,
-                                                         m: u8, d0: u32, d1: u32, e0: u32, e1: u32, f0: u32, f1: u32, vb: u8, x: u32| {
-            assume(n <= $bound && m <= $bound);
-            let ($s, $o) = (sp3(n, a0, a1, b0, b1, c0, c1), sp3(m, d0, d1, e0, e1, f0, f1));
-            assume(canonical(&$s) && canonical(&$o));
-            let ($os, $oo, $x) = (mkchain(&$s, va), mkchain(&$o, vb), x);
-            $body
+    macro_rules! pair_body { ($bn:expr, $bm:expr, [$n:ident $a0:ident $a1:ident $b0:ident $b1:ident $c0:ident $c1:ident $va:ident $m:ident $d0:ident $d1:ident $e0:ident $e1:ident $f0:ident $f1:ident $vb:ident $xx:ident],
+                              |$s:ident, $o:ident, $os:ident, $oo:ident, $x:ident| $body:block) => { {
+        assume($n <= $bn && $m <= $bm);
+        let ($s, $o) = (sp3($n, $a0, $a1, $b0, $b1, $c0, $c1), sp3($m, $d0, $d1, $e0, $e1, $f0, $f1));
+        assume(canonical(&$s) && canonical(&$o));
+        let ($os, $oo, $x) = (mkchain(&$s, $va), mkchain(&$o, $vb), $xx);
+        $body
+    } } }
+    /// queries (no allocation inside the operation): run with the built-in allocator, no stub
+    macro_rules! query_harness { ($name:ident, $unwind:literal, $bn:expr, $bm:expr, |$s:ident, $o:ident, $os:ident, $oo:ident, $x:ident| $body:block) => {
+        verif_harness!{ #[kani::unwind($unwind)]
+                        $name; |n: u8, a0: u32, a1: u32, b0: u32, b1: u32, c0: u32, c1: u32, va: u8,
+                                m: u8, d0: u32, d1: u32, e0: u32, e1: u32, f0: u32, f1: u32, vb: u8, x: u32| {
+            pair_body!($bn, $bm, [n a0 a1 b0 b1 c0 c1 va m d0 d1 e0 e1 f0 f1 vb x], |$s, $o, $os, $oo, $x| $body)
+        }}
+    }}
+    /// operations that build a Vec: run under the allocator model.
+    /// $realloc: `realloc` where the operation legitimately grows a live buffer, `no_realloc` otherwise
+    macro_rules! pair_harness { ($name:ident, $unwind:literal, $realloc:ident, $bn:expr, $bm:expr, |$s:ident, $o:ident, $os:ident, $oo:ident, $x:ident| $body:block) => {
+        verif_harness!{ #[kani::unwind($unwind)] #[kani::stub(std::alloc::alloc, pool::alloc)] #[kani::stub(alloc::alloc::realloc_nonnull, pool::$realloc)]
+                        #[kani::stub(core::ptr::copy_nonoverlapping, pool::copy_model)]
+                        $name; |n: u8, a0: u32, a1: u32, b0: u32, b1: u32, c0: u32, c1: u32, va: u8,
+                                m: u8, d0: u32, d1: u32, e0: u32, e1: u32, f0: u32, f1: u32, vb: u8, x: u32| {
+            pool::init();
+            pair_body!($bn, $bm, [n a0 a1 b0 b1 c0 c1 va m d0 d1 e0 e1 f0 f1 vb x], |$s, $o, $os, $oo, $x| $body)
         }}
     }}
 
     macro_rules! contains_body { ($name:ident, $unwind:literal, $bound:expr) => {
-        pair_harness!($name, $unwind, $bound, |s, o, os, oo, x| {
+        query_harness!($name, $unwind, $bound, $bound, |s, o, os, oo, x| {
             let (cs, co) = (os.as_chain(), oo.as_chain());
             assert!(cs.contains_item(asn(x)) == has(&s, x), "contains_item(x) == (x in self)");
             assert!(co.contains_item(asn(x)) == has(&o, x), "contains_item(x) == (x in other)");
         });
     }}
-    //@harness chain_kb_contains_n2 Kb fn=Chain::contains_item bound="chains of at most 2 blocks, bounds and probe symbolic" timeout=600
-    contains_body!(chain_kb_contains_n2, 4, 2);
     //@harness chain_kb_contains_n3 Kb fn=Chain::contains_item bound="chains of at most 3 blocks, bounds and probe symbolic" timeout=600
     contains_body!(chain_kb_contains_n3, 5, 3);
 
     macro_rules! encompassed_body { ($name:ident, $unwind:literal, $bound:expr) => {
-        pair_harness!($name, $unwind, $bound, |s, o, os, oo, x| {
+        query_harness!($name, $unwind, $bound, $bound, |s, o, os, oo, x| {
             let (cs, co) = (os.as_chain(), oo.as_chain());
             let r = cs.is_encompassed(&oo);
             assert!(r == subset(&s, &o), "is_encompassed == (self is a subset of other)");
             if r { assert!(!has(&s, x) || has(&o, x), "is_encompassed ==> every x in self is in other"); }
         });
     }}
-    //@harness chain_kb_encompassed_n2 Kb fn=Chain::is_encompassed bound="chains of at most 2 blocks, bounds and probe symbolic" timeout=600
-    encompassed_body!(chain_kb_encompassed_n2, 5, 2);
-    //@harness chain_kb_encompassed_n3 Kb fn=Chain::is_encompassed bound="chains of at most 3 blocks, bounds and probe symbolic" timeout=900 thorough
+    //@harness chain_kb_encompassed_n3 Kb fn=Chain::is_encompassed bound="chains of at most 3 blocks, bounds and probe symbolic" timeout=900
     encompassed_body!(chain_kb_encompassed_n3, 7, 3);
 
     macro_rules! eq_body { ($name:ident, $unwind:literal, $bound:expr) => {
-        pair_harness!($name, $unwind, $bound, |s, o, os, oo, x| {
+        query_harness!($name, $unwind, $bound, $bound, |s, o, os, oo, x| {
             let (cs, co) = (os.as_chain(), oo.as_chain());
             let r = cs == co;
             assert!(r == (subset(&s, &o) && subset(&o, &s)), "== is equality of the denoted sets");
@@ -155,14 +260,12 @@ mod verif_chain_kb {
             assert!((os == oo) == r, "OwnedChain == is Chain ==");
         });
     }}
-    //@harness chain_kb_eq_n2 Kb fn=Chain::eq bound="chains of at most 2 blocks, bounds and probe symbolic" timeout=600
-    eq_body!(chain_kb_eq_n2, 4, 2);
-    //@harness chain_kb_eq_n3 Kb fn=Chain::eq bound="chains of at most 3 blocks, bounds and probe symbolic" timeout=900 thorough
+    //@harness chain_kb_eq_n3 Kb fn=Chain::eq bound="chains of at most 3 blocks, bounds and probe symbolic" timeout=900
     eq_body!(chain_kb_eq_n3, 5, 3);
 
-    macro_rules! trim_body { ($name:ident, $unwind:literal, $bound:expr) => {
-        pair_harness!($name, $unwind, $bound, |s, o, os, oo, x| {
-            let (cs, co) = (os.as_chain(), oo.as_chain());
+    macro_rules! trim_body { ($name:ident, $unwind:literal, $bn:expr, $bm:expr) => {
+        pair_harness!($name, $unwind, realloc, $bn, $bm, |s, o, os, oo, x| {
+            let cs = os.as_chain();
             match cs.trim(&oo) {
                 Ok(()) => {
                     assert!(!has(&s, x) || has(&o, x), "trim Ok ==> every x in self is in other");
@@ -176,23 +279,51 @@ mod verif_chain_kb {
             }
         });
     }}
-    //@harness chain_kb_trim_n2 Kb fn=Chain::trim bound="self and other at most 2 blocks, bounds and probe symbolic" timeout=900
-    trim_body!(chain_kb_trim_n2, 8, 2);
-    //@harness chain_kb_trim_n3 Kb fn=Chain::trim bound="self and other at most 3 blocks, bounds and probe symbolic" timeout=1800 thorough
-    trim_body!(chain_kb_trim_n3, 11, 3);
+    //@harness chain_kb_trim_s1_o1 Kb fn=Chain::trim bound="self and other at most 1 block, bounds and probe symbolic" timeout=900
+    trim_body!(chain_kb_trim_s1_o1, 3, 1, 1);
+    //@harness chain_kb_trim_s2_o1 Kb fn=Chain::trim bound="self at most 2 blocks, other at most 1 block, bounds and probe symbolic" timeout=1800 thorough
+    trim_body!(chain_kb_trim_s2_o1, 4, 2, 1);
+    //@harness chain_kb_trim_s1_o2 Kb fn=Chain::trim bound="self at most 1 block, other at most 2 blocks, bounds and probe symbolic" timeout=1800 thorough
+    trim_body!(chain_kb_trim_s1_o2, 5, 1, 2);
+    //@harness chain_kb_trim_n2 Kb fn=Chain::trim bound="self and other at most 2 blocks, bounds and probe symbolic" timeout=3600 thorough
+    trim_body!(chain_kb_trim_n2, 6, 2, 2);
 
-    macro_rules! difference_body { ($name:ident, $unwind:literal, $bound:expr) => {
-        pair_harness!($name, $unwind, $bound, |s, o, os, oo, x| {
-            let (cs, co) = (os.as_chain(), oo.as_chain());
+    macro_rules! difference_body { ($name:ident, $unwind:literal, $bn:expr, $bm:expr) => {
+        pair_harness!($name, $unwind, no_realloc, $bn, $bm, |s, o, os, oo, x| {
+            let cs = os.as_chain();
             let d = cs.difference(&oo);
             let r = view(d.as_slice());
             assert!(canonical(&r), "difference is canonical");
             assert!(has(&r, x) == (has(&s, x) && !has(&o, x)), "x in difference <==> x in self && x not in other");
         });
     }}
-    //@harness chain_kb_difference_n2 Kb fn=Chain::difference bound="self and other at most 2 blocks, bounds and probe symbolic" timeout=900
-    difference_body!(chain_kb_difference_n2, 8, 2);
-    //@harness chain_kb_difference_n3 Kb fn=Chain::difference bound="self and other at most 3 blocks, bounds and probe symbolic" timeout=1800 thorough
-    difference_body!(chain_kb_difference_n3, 11, 3);
+    //@harness chain_kb_difference_s1_o1 Kb fn=Chain::difference bound="self and other at most 1 block, bounds and probe symbolic" timeout=900
+    difference_body!(chain_kb_difference_s1_o1, 3, 1, 1);
+    //@harness chain_kb_difference_n2 Kb fn=Chain::difference bound="self and other at most 2 blocks, bounds and probe symbolic" timeout=1800 thorough
+    difference_body!(chain_kb_difference_n2, 5, 2, 2);
+
+    // ---------------- OwnedChain::from_iter -------------------------------------------------------
+    /// input blocks in ascending order of their lower bounds: from_iter never leaves its fast path
+    fn sorted_by_lo(s: &Sp) -> bool { all_i!(i, i + 1 >= s.n || s.lo[i] <= s.lo[i + 1]) }
+    macro_rules! from_iter_body { ($name:ident, $unwind:literal, $bound:expr, $sorted:expr) => {
+        verif_harness!{ #[kani::unwind($unwind)] #[kani::stub(std::alloc::alloc, pool::alloc)] #[kani::stub(alloc::alloc::realloc_nonnull, pool::no_realloc)]
+                        #[kani::stub(core::ptr::copy_nonoverlapping, pool::copy_model)]
+                        $name; |n: u8, a0: u32, a1: u32, b0: u32, b1: u32, c0: u32, c1: u32, va: u8, x: u32| {
+            pool::init();
+            assume(n <= $bound);
+            let s = sp3(n, a0, a1, b0, b1, c0, c1);
+            // arbitrary non-empty blocks, overlapping / adjacent / repeated as they come
+            assume(blocks_ok(&s) && sorted_by_lo(&s) == $sorted);
+            let c = OwnedChain::<AsBlock>::from_iter(mkvec(&s, va));
+            let r = view(c.as_slice());
+            assert!(canonical(&r), "from_iter is canonical");
+            assert!(has(&r, x) == has(&s, x), "x in from_iter(blocks) <==> x in some block");
+            assert!(canonical_variants(c.as_slice()), "from_iter re-creates every block with Block::new (Id iff single number)");
+        }}
+    }}
+    //@harness chain_kb_from_iter_sorted_n2 Kb fn=OwnedChain::from_iter bound="at most 2 input blocks, ascending lower bounds (fast path), bounds and probe symbolic" timeout=900
+    from_iter_body!(chain_kb_from_iter_sorted_n2, 4, 2, true);
+    //@harness chain_kb_from_iter_unsorted_n2 Kb fn=OwnedChain::from_iter,from_iter_unsorted,merge_or_add_block bound="exactly 2 input blocks, second starts below the first (slow path), bounds and probe symbolic" timeout=1800
+    from_iter_body!(chain_kb_from_iter_unsorted_n2, 4, 2, false);
 }
 //@end
